@@ -43,15 +43,24 @@ def run(rep, tier, seed):
         raise vlib.Infra("driver c16 failed:\n" + p.stdout[-3000:])
     vlib.log(p.stdout.strip())
     events = validate(rep, work, trace, "prune/verify")
+    # the S3 store's Prune against an in-memory S3 endpoint (listing pages of 3 / 7 / 1000 keys, refused DELETEs)
+    s3bin = vlib.go_build("s3")
+    s3trace = os.path.join(work, "s3prune.ndjson")
+    p = vlib.sh("%s -seed %d -len 1 -prune %d -out %s -outprune %s" % (s3bin, seed, 1500 if thorough else 200, os.path.join(work, "s3ops.ndjson"), s3trace), timeout=3000, check=False)
+    if p.returncode != 0:
+        raise vlib.Infra("driver s3 failed:\n" + p.stdout[-3000:])
+    vlib.log(p.stdout.strip())
+    events += validate(rep, work, s3trace, "S3 prune")
     for e in events:
         rep.case(e, len(e.get("files", [])) >= 3)
     rep.sample(events[:3])
     rep.rule = ("case = store directory with, per ID (3) and format (2), a valid chunk / an invalid chunk (other chunk's object, garbage, truncated) / nothing, optional "
                 "chunk-named files in foreign directories, 0-2 abandoned temporary files, 0-2 junk files; then Prune with a random keep-set over 4 IDs (one absent "
                 "from the store) or Verify with/without repair and 1/4/10 workers, in compressed or uncompressed mode, library and (every 8th) `desync prune`; "
+                "plus S3 buckets with own-format / other-format chunks, junk objects, objects outside the prefix, listing pages of 3/7/1000 keys and a DELETE the service refuses; "
                 "distinct = different directory/operation; non-trivial = >= 3 files")
     rep.trusted = ["the ID in a verify message is parsed from 'chunk id <id> does not match its hash'"]
-    rep.assumptions = ["S3 and SFTP stores are not exercised (no server offline)"]
+    rep.assumptions = ["S3 prune runs against an in-memory S3 endpoint written for this harness (harness/fakes/s3.go); SFTP stores are not exercised (no server offline)"]
 
 
 def replay(path):
